@@ -115,10 +115,12 @@ class MLPModel(DiscriminativeModel):
     def _init_params(self, random_state, X=None):
         in_threshold = np.sqrt(1 / self.n_features_in_)
         hidden_threshold = np.sqrt(1 / self.n_hidden_dim)
-        self.W1_ = random_state.uniform(-in_threshold, in_threshold, size=(self.n_features_in_, self.n_hidden_dim))
-        self.b1_ = random_state.uniform(-in_threshold, in_threshold, size=(1, self.n_hidden_dim))
-        self.W2_ = random_state.uniform(-hidden_threshold, hidden_threshold, size=(self.n_hidden_dim, self.n_clusters))
-        self.b2_ = random_state.uniform(-hidden_threshold, hidden_threshold, size=(1, self.n_clusters))
+        W1 = random_state.uniform(-in_threshold, in_threshold, size=(self.n_features_in_, self.n_hidden_dim))
+        b1 = random_state.uniform(-in_threshold, in_threshold, size=(1, self.n_hidden_dim))
+        W2 = random_state.uniform(-hidden_threshold, hidden_threshold, size=(self.n_hidden_dim, self.n_clusters))
+        b2 = random_state.uniform(-hidden_threshold, hidden_threshold, size=(1, self.n_clusters))
+        # All layers are set together: a failed initialisation leaves no half-built network behind
+        self.W1_, self.b1_, self.W2_, self.b2_ = W1, b1, W2, b2
 
     def _compute_grads(self, X, y_pred, gradient):
         tau_hat_grad = y_pred * (gradient - (y_pred * gradient).sum(1, keepdims=True))  # Shape NxK
